@@ -7,6 +7,7 @@ import (
 	"context"
 	"errors"
 	"fmt"
+	"github.com/honeytrap/honeytrap/director"
 	"net"
 	"strings"
 
@@ -42,6 +43,37 @@ type zzRunCfg struct {
 	serviceNames []string // all of type "zzsvc"
 	filters      []zzFilterCfg
 	ports        []zzPortCfg
+	directors    []zzDirCfg // all of type "zzdir"
+	serviceDirs  []string   // parallel to serviceNames: the director each service names ("" = none)
+}
+
+type zzDirCfg struct{ name, host string }
+
+// zzDir: a recording director type; its host is what its own configuration section says.
+type zzDir struct {
+	Host string `toml:"host"`
+}
+
+func (d *zzDir) Dial(c net.Conn) (net.Conn, error) { return nil, errors.New("zz: no dial") }
+
+// zzLabel: an undecoded table that the decoder model can recognise (label kept in the
+// primitive's first, unexported field).
+func zzLabel(l string) toml.Primitive {
+	var p toml.Primitive
+	zzSetHidden(&p, 0, l)
+	return p
+}
+
+func zzLabelOf(p toml.Primitive) string {
+	l, _ := zzGetHidden(&p, 0).(string)
+	return l
+}
+
+func zzLabelIdx(l, prefix string) int {
+	if len(l) == len(prefix)+1 && l[:len(prefix)] == prefix {
+		return int(l[len(prefix)] - '0')
+	}
+	return -1
 }
 
 // decode queues consumed by the PrimitiveDecode model in the order Run decodes
@@ -62,8 +94,10 @@ func zzStubPrimitiveDecode(md *toml.MetaData, prim toml.Primitive, v interface{}
 	case *struct {
 		Type string `toml:"type"`
 	}:
-		// channels first (one per channel), then directors (none), then the listener
-		if zzChanIdx < len(zzCfg.channelNames) {
+		// channels first (one per channel), then the directors, then the listener
+		if zzLabelIdx(zzLabelOf(prim), "dir:") >= 0 {
+			x.Type = "zzdir"
+		} else if zzChanIdx < len(zzCfg.channelNames) {
 			zzChanIdx++
 			x.Type = "zzrec"
 		} else {
@@ -90,6 +124,20 @@ func zzStubPrimitiveDecode(md *toml.MetaData, prim toml.Primitive, v interface{}
 	}:
 		zzSvcIdx++
 		x.Type = "zzsvc"
+		if i := zzLabelIdx(zzLabelOf(prim), "svc:"); i >= 0 && i < len(zzCfg.serviceDirs) && zzCfg.serviceDirs[i] != "" {
+			x.Director = zzCfg.serviceDirs[i]
+		}
+	case *zzDir:
+		// a director instance decodes its own section
+		if i := zzLabelIdx(zzLabelOf(prim), "dir:"); i >= 0 && i < len(zzCfg.directors) {
+			x.Host = zzCfg.directors[i].host
+		} else {
+			return errors.New("zz: PrimitiveDecode model: director decoded from a table that is not a director section")
+		}
+	case *zzRunSvc:
+		if i := zzLabelIdx(zzLabelOf(prim), "svc:"); i >= 0 && i < len(zzCfg.serviceNames) {
+			x.Name = zzCfg.serviceNames[i]
+		}
 	default:
 		// a [[port]] entry: whatever (named or anonymous) struct Run decodes it into, the
 		// fields are found by their toml tags; keys absent from the entry are not assigned
@@ -133,7 +181,15 @@ func (l *zzRunListener) AddAddress(a net.Addr)     { l.addrs = append(l.addrs, a
 
 var zzRunL *zzRunListener
 
-type zzRunSvc struct{ id int }
+type zzRunSvc struct {
+	id   int
+	Name string `toml:"zzname"` // from its own configuration section
+	dir  director.Director
+}
+
+func (s *zzRunSvc) SetDirector(d director.Director) { s.dir = d }
+
+var zzRunSvcList []*zzRunSvc
 
 func (s *zzRunSvc) Handle(ctx context.Context, c net.Conn) error { return nil }
 func (s *zzRunSvc) SetChannel(pushers.Channel)                   {}
@@ -152,7 +208,21 @@ func zzRegisterStubs() {
 	})
 	services.Register("zzsvc", func(opts ...services.ServicerFunc) services.Servicer {
 		zzRunSvcs++
-		return &zzRunSvc{id: zzRunSvcs}
+		s := &zzRunSvc{id: zzRunSvcs}
+		for _, o := range opts {
+			o(s)
+		}
+		zzRunSvcList = append(zzRunSvcList, s)
+		return s
+	})
+	director.Register("zzdir", func(opts ...func(director.Director) error) (director.Director, error) {
+		d := &zzDir{}
+		for _, o := range opts {
+			if err := o(d); err != nil {
+				return nil, err
+			}
+		}
+		return d, nil
 	})
 }
 
@@ -170,8 +240,14 @@ func zzToml(c *zzRunCfg) string {
 	for _, n := range c.channelNames {
 		fmt.Fprintf(&b, "[channel.%s]\ntype=\"zzrec\"\n", n)
 	}
-	for _, n := range c.serviceNames {
-		fmt.Fprintf(&b, "[service.%s]\ntype=\"zzsvc\"\n", n)
+	for i, n := range c.serviceNames {
+		fmt.Fprintf(&b, "[service.%s]\ntype=\"zzsvc\"\nzzname=%q\n", n, n)
+		if i < len(c.serviceDirs) && c.serviceDirs[i] != "" {
+			fmt.Fprintf(&b, "director=%q\n", c.serviceDirs[i])
+		}
+	}
+	for _, d := range c.directors {
+		fmt.Fprintf(&b, "[director.%s]\ntype=\"zzdir\"\nhost=%q\n", d.name, d.host)
 	}
 	for _, f := range c.filters {
 		fmt.Fprintf(&b, "[[filter]]\nchannel=%s\n", q(f.channels))
@@ -200,7 +276,7 @@ func zzToml(c *zzRunCfg) string {
 // zzRun executes the real Run on the configuration until the (stub) listener refuses to start.
 func zzRun(c *zzRunCfg) *Honeytrap {
 	zzCfg, zzChanIdx, zzFiltIdx, zzSvcIdx, zzPortIdx = c, 0, 0, 0, 0
-	zzRunChans, zzRunL, zzRunSvcs = nil, nil, 0
+	zzRunChans, zzRunL, zzRunSvcs, zzRunSvcList = nil, nil, 0, nil
 	zzRegisterStubs()
 	conf := &config.Config{}
 	if zzSymbolic() {
@@ -209,8 +285,12 @@ func zzRun(c *zzRunCfg) *Honeytrap {
 			conf.Channels[n] = toml.Primitive{}
 		}
 		conf.Services = map[string]toml.Primitive{}
-		for _, n := range c.serviceNames {
-			conf.Services[n] = toml.Primitive{}
+		for i, n := range c.serviceNames {
+			conf.Services[n] = zzLabel("svc:" + string(rune('0'+i)))
+		}
+		conf.Directors = map[string]toml.Primitive{}
+		for i, d := range c.directors {
+			conf.Directors[d.name] = zzLabel("dir:" + string(rune('0'+i)))
 		}
 		conf.Filters = make([]toml.Primitive, len(c.filters))
 		conf.Ports = make([]toml.Primitive, len(c.ports))
@@ -418,5 +498,51 @@ func zzH_C19_runports() {
 			}
 		}
 		zzAssert(found == w.nsvc, "a listened entry dispatches to exactly its defined services")
+	}
+}
+
+// C15/run-directors: the real Run wires services to directors. D director sections (each
+// with its own host) and 2 services, each naming one of the directors or none. Every
+// service must get the director built from the section it names - i.e. a proxy dials the
+// backend configured for it.
+func zzH_C15_rundirectors() {
+	nd := zzLen(1, zzParam("D", 3))
+	c := &zzRunCfg{serviceNames: []string{"s0", "s1"}}
+	for i := 0; i < nd; i++ {
+		c.directors = append(c.directors, zzDirCfg{name: "d" + string(rune('0'+i)), host: "host" + string(rune('0'+i)) + ":22"})
+	}
+	pick := func() string {
+		k := zzLen(0, nd)
+		if k == nd {
+			return ""
+		}
+		return c.directors[k].name
+	}
+	c.serviceDirs = []string{pick(), pick()}
+	c.ports = []zzPortCfg{{hasPort: true, port: "tcp/8022", services: []string{"s0", "s1"}}}
+	zzRun(c)
+	zzAssert(len(zzRunSvcList) == 2, "both services are created")
+	for _, s := range zzRunSvcList {
+		want := ""
+		for i, n := range c.serviceNames {
+			if n == s.Name {
+				want = c.serviceDirs[i]
+			}
+		}
+		if want == "" {
+			zzAssert(s.dir == nil, "a service that names no director gets none")
+			continue
+		}
+		d, ok := s.dir.(*zzDir)
+		zzAssert(ok && d != nil, "a service that names a director gets one")
+		if ok && d != nil {
+			host := ""
+			for _, dc := range c.directors {
+				if dc.name == want {
+					host = dc.host
+				}
+			}
+			zzAssert(d.Host == host, "a service's director is the one built from the section the service names")
+		}
 	}
 }
